@@ -234,6 +234,22 @@ def walk_and_index_order(ctx, ntrees):
     cases = []
     for t in range(ntrees):
         tree = gen.rand_tree(ctx.rng, depth=ctx.rng.choice([2, 3, 3, 4]), fanout=4, neg_frac=False)
+        if len(cases) % 3 == 0:
+            # sibling directories D and D<c>... with c below '/': path order (D's whole subtree first? no: direct children
+            # of the parent first, then each subtree) and string order of the pending directory paths disagree
+            def f_(d):
+                return {"k": "f", "data": d.hex(), "mode": 0o644, "mtime": 10**18}
+
+            def d_(c):
+                return {"k": "d", "mode": 0o755, "mtime": 10**18, "c": c}
+            base = ctx.rng.choice(["proj", "docs", "a", "ñ"])
+            host = tree
+            subs = [v for v in tree["c"].values() if v["k"] == "d"]
+            if subs and ctx.rng.random() < 0.5:
+                host = ctx.rng.choice(subs)
+            host["c"][base] = d_({"src": d_({"main": f_(b"m"), "deep": d_({"x": f_(b"x")})}), "top": f_(b"t")})
+            for suf in ctx.rng.sample([".git", "-new", " 2", "(1)", ",v", "+"], 2):
+                host["c"][base + suf] = d_({"HEAD": f_(b"h"), "sub": d_({"y": f_(b"y")})})
         opts = gen.rand_opts(ctx.rng)
         cases.append({"id": f"w{t}", "tree": tree, "opts": opts, "steps": [
             {"op": "init"}, {"op": "mktree", "path": "src", "tree": tree},
